@@ -456,11 +456,12 @@ func checkBF(c Case, o *vf.Obs, r run, lines []string, ctxt func() string) error
 	for _, l := range lines {
 		switch {
 		case strings.HasPrefix(l, "c ") || l == "":
-		case l == "SATISFIABLE" || l == "UNSATISFIABLE":
+		case l == "SATISFIABLE" || l == "UNSATISFIABLE" || l == "s SATISFIABLE" || l == "s UNSATISFIABLE":
+			// (the tool prints the bare word for .bf files; the competition spelling would be as truthful)
 			if status != "" {
 				return fmt.Errorf("two status lines%s", ctxt())
 			}
-			status = l
+			status = strings.TrimPrefix(l, "s ")
 		default:
 			i := strings.LastIndex(l, ": ")
 			if i < 0 {
